@@ -2,19 +2,46 @@
 From Perf Require Import Base.Bytes Model.Dates.
 Local Open Scope Z_scope.
 
-(** texts (in either accepted layout) denoting one instant normalise to one string *)
+(** texts (in either accepted layout) denoting one instant normalise to one
+    string - or are both rejected, when the UTC year of the instant has not
+    four digits (repair hooks/fix_c18_date_year_range.diff) *)
 Theorem normalize_same_instant s1 s2 i :
   denotes s1 = Some i -> denotes s2 = Some i ->
-  normalize_date s1 = Some (format_instant i) /\ normalize_date s2 = Some (format_instant i).
+  normalize_date s1 = normalize_date s2 /\
+  (year_inrange_b i = true -> normalize_date s1 = Some (format_instant i)).
 Proof.
   unfold denotes, normalize_date. intros H1 H2.
   destruct (parse_date s1); [|discriminate]. destruct (parse_date s2); [|discriminate].
-  cbn [option_map] in H1, H2. injection H1 as H1. injection H2 as H2. now rewrite H1, H2.
+  cbn [option_map] in H1, H2. injection H1 as H1. injection H2 as H2. rewrite H1, H2.
+  split; [reflexivity|]. intros R. rewrite R. reflexivity.
 Qed.
 
-(** a text is accepted exactly when it denotes an instant *)
-Theorem normalize_defined_iff s : normalize_date s <> None <-> denotes s <> None.
-Proof. unfold denotes, normalize_date. destruct (parse_date s); cbn; split; congruence. Qed.
+(** a text is accepted exactly when it denotes an instant of a four-digit UTC year *)
+Theorem normalize_defined_iff s :
+  normalize_date s <> None <-> exists i, denotes s = Some i /\ year_inrange_b i = true.
+Proof.
+  unfold denotes, normalize_date. destruct (parse_date s) as [c|]; cbn [option_map].
+  - destruct (year_inrange_b (to_instant c)) eqn:R; split.
+    + intros _. now exists (to_instant c).
+    + discriminate.
+    + congruence.
+    + intros [i [E Ri]]. injection E as E. rewrite E in R. congruence.
+  - split; [congruence|]. intros [i [E _]]. discriminate E.
+Qed.
+
+Lemma some_inj {A} (x y : A) : Some x = Some y -> x = y.
+Proof. intros H. now inversion H. Qed.
+
+(** an accepted text: its instant and its normalised string *)
+Lemma normalize_some s n :
+  normalize_date s = Some n ->
+  exists i, denotes s = Some i /\ year_inrange_b i = true /\ n = format_instant i.
+Proof.
+  unfold denotes, normalize_date. destruct (parse_date s) as [c|]; [|discriminate].
+  destruct (year_inrange_b (to_instant c)) eqn:R; [|discriminate].
+  intros E. apply some_inj in E. exists (to_instant c). cbn [option_map].
+  split; [reflexivity|]. split; [exact R|]. symmetry. exact E.
+Qed.
 
 (** the punctuation-free layout is read as UTC *)
 Example both_layouts_one_instant :
